@@ -79,6 +79,7 @@ class Gen:
         self.bc: set[int] = set()     # boolean constants (moved around)
         self.cb: set[int] = set()     # comparison / bitwise results (moved)
         self.bw: set[int] = set()     # bitwise results (moved)
+        self.sm: set[int] = set()     # inlined expr may hold a constant < 1
         self.noinput: set[int] = set()  # functions of loop indices only
 
     # {{{ primitives
@@ -114,6 +115,13 @@ class Gen:
                 return None
             if any(s > 12 for s in v.a.shape):
                 return None
+        truth_args = args if op in ("logical_and", "logical_or", "logical_not",
+                                    "all", "any") else (
+            args[:1] if op == "where" else [])
+        if any(a[0] == "n" and a[1] in self.sm for a in truth_args) \
+                and not self.boolean(1, 12):
+            # known finding C01-loopy-logical-small-literal
+            return None
         if isinstance(v.a, np.ndarray) and v.kind in "fc" \
                 and op not in MOVEMENT and any(
                     a[0] == "n" and a[1] in self.bw for a in args) \
@@ -146,6 +154,17 @@ class Gen:
         if all(r in self.noinput for r in refs) and op not in (
                 "placeholder", "data"):
             self.noinput.add(idx)
+
+        def small(a):
+            return a[0] in ("py", "np") and isinstance(a[-1], float) \
+                and 0 < abs(a[-1]) < 1
+        if any(small(a) for a in args) or any(r in self.sm for r in refs) \
+                or (op == "pad" and "constant_values" in (params or {})) \
+                or (op == "full" and isinstance(params.get("value"), float)
+                    and 0 < abs(params["value"]) < 1):
+            if op not in npref.REDUCE + ("einsum", "matmul", "dot", "vdot",
+                                         "csr_matmul") + npref.COMPARE:
+                self.sm.add(idx)
         return idx
 
     def arrays(self, pred=None) -> list[int]:
@@ -461,7 +480,8 @@ class Gen:
         mode = _w(self.draw, [(4, "smallint"), (2, "float"), (1, "rev"),
                               (1, "array")])
         if mode == "smallint":
-            return self.try_op("pow", [["n", i], ["py", self.integers(0, 3)]])
+            # (exponent 0 excluded: loopy folds x**0 to the integer literal 1)
+            return self.try_op("pow", [["n", i], ["py", self.integers(1, 3)]])
         if mode == "array" and v.kind in "iu":
             e = self.new_input("int32", v.shape, 0, 3)
             b = self.try_op("mod", [["n", i], ["py", 5]])
